@@ -242,8 +242,6 @@ class Formula:
             raise Unrecognised(f"binary operator {type(e.op).__name__}")
         if isinstance(e, ast.Call):
             fn = strip_v(ast.unparse(e.func))
-            if fn in self.transparent and len(e.args) >= 1:
-                return self.parse(e.args[0])
             if fn == "float" and len(e.args) == 1 and isinstance(e.args[0], ast.Constant) and isinstance(e.args[0].value, str):
                 if e.args[0].value.lower() in ("inf", "+inf", "infinity"):
                     return Rat(p_sym("inf"))
@@ -251,6 +249,8 @@ class Formula:
                     return -Rat(p_sym("inf"))
                 if e.args[0].value.lower() == "nan":
                     return Rat(p_sym("nan"))
+            if fn in self.transparent and len(e.args) >= 1:
+                return self.parse(e.args[0])
             name = _FN_ALIASES.get(fn)
             if name is None:
                 if self.allow_calls is not None and fn not in self.allow_calls and not any(fn.endswith("." + a) for a in self.allow_calls):
